@@ -102,7 +102,8 @@ class Policy:
 
 
 def origins(nm, tier='quick'):
-    o = [None, nm['o1'], nm['o2'], nm['o3'], nm['oc']]
+    # ... and a proper PREFIX and a proper INFIX of a configured origin (substring vs membership tests)
+    o = [None, nm['o1'], nm['o2'], nm['o3'], nm['oc'], nm['o1'][:-1], nm['o1'][8:]]
     if tier != 'quick':
         o += ['null', nm['o2'] + '/']          # opaque origin; configured origin with a trailing slash (a different string)
     return o
